@@ -223,6 +223,22 @@ theorem logspace_change_of_variables (inner : (ι → ℝ) → ℝ) (b : ℝ) (h
   intro i _
   exact Real.exp_log (hpos i)
 
+/-- the same for every base other than 1 (a base below one has a negative Jacobian): with the
+    absolute value of the Jacobian, as the code takes it, the density is the inner density times
+    `Πᵢ |1 / (mᵢ ln b)|` -/
+theorem logspace_change_of_variables_abs (inner : (ι → ℝ) → ℝ) (b : ℝ) (hb : Real.log b ≠ 0) (x : ι → ℝ) (hx : ∀ i, 0 < x i) :
+    Real.exp (-(inner (fun i => Dist.logForward Real.log b (x i)) - ∑ i, Real.log |Dist.logJac Real.log b (x i)|))
+      = Real.exp (-(inner (fun i => Real.log (x i) / Real.log b))) * ∏ i, |(1 / x i) / Real.log b| := by
+  have hpos : ∀ i, 0 < |(1 / x i) / Real.log b| := fun i =>
+    abs_pos.mpr (div_ne_zero (one_div_ne_zero (hx i).ne') hb)
+  simp only [Dist.logForward, Dist.logJac, lit_one]
+  rw [neg_sub, sub_eq_add_neg, Real.exp_add, mul_comm]
+  congr 1
+  rw [Real.exp_sum]
+  apply Finset.prod_congr rfl
+  intro i _
+  exact Real.exp_log (hpos i)
+
 /-- `base^(log_base m) = m`: `transform_backward` inverts `transform_forward` on positive `m` -/
 theorem logspace_roundtrip (b m : ℝ) (hb1 : 1 < b) (hm : 0 < m) :
     b ^ (Dist.logForward Real.log b m) = m := by
